@@ -427,6 +427,9 @@ func cmdRun(args []string) int {
 		// runs against an alternate tree (seeded changes) must not overwrite the evidence of /repo
 		evDir = filepath.Join(mcDir, ".work", "alt-evidence")
 	}
+	if d := os.Getenv("MXJ_EVIDENCE_DIR"); d != "" {
+		evDir = d // trial runs (e.g. a thorough tier run while quick evidence is the committed one)
+	}
 	os.MkdirAll(evDir, 0o755)
 	eb, _ := json.MarshalIndent(ev, "", " ")
 	if err := os.WriteFile(filepath.Join(evDir, id+".json"), eb, 0o644); err != nil {
